@@ -1,7 +1,7 @@
 (* Entry points of the correspondence check: run a history of manager operations on the model and
    render what a user of the API can observe as numbers. *)
 Require Import KV.Sdd.Model KV.Sdd.Sem KV.Sdd.Spec.
-Require Export KV.Sdd.History KV.Sdd.Decomp.
+Require Export KV.Sdd.History KV.Sdd.Decomp KV.Sdd.Reduced.
 Require Import ZArith.
 
 Definition FUEL : nat := 200.
@@ -78,7 +78,7 @@ Definition report (nv : N) (ops : list op) (detail : bool) :=
    map qr (wmcs m (rh s)),
    if detail then map (map (map blit)) (modelss m (rh s)) else [],
    if detail then map (map (fun vg => (fst vg, qr (snd vg)))) (grads m (rh s)) else [],
-   decomp_ok m).
+   decomp_ok m && reduced_ok m).
 
 (* interruption: run `pre`, then the budgeted operation `o` under budget b, then `post`;
    report the step results of o and post and the tables of all handles *)
